@@ -50,6 +50,16 @@ func makeNamedType(name string, underlying types.Type) *types.Named {
 }
 
 func makeReflectValue(t types.Type, v value) value {
+	// A reflect.Value never has an interface kind unless obtained through Elem
+	// of a pointer to interface: unwrap interface-typed values to their dynamic
+	// type, as reflect.ValueOf and Value.Interface round trips do.
+	if t != nil {
+		if _, isIface := t.Underlying().(*types.Interface); isIface {
+			if iv, ok := v.(iface); ok && iv.t != nil {
+				return structure{rtype{iv.t}, iv.v}
+			}
+		}
+	}
 	return structure{rtype{t}, v}
 }
 
